@@ -210,14 +210,9 @@ func c10OneSample(c *Ctx) {
 			// shootStep reports only on success; the loop reports the failed step through reportErr
 			c.Check(nNil >= 1 && nilIv.Is(1, 1), "O10.1", fk(step)+":success-exit-reports-once", step.Pos(), fmt.Sprintf("Report count on success exits = %v over %d exit(s) (want [1,1])", nilIv, nNil))
 			c.Check(nErr >= 1 && errIv.Is(0, 0), "O10.1", fk(step)+":error-exits-leave-the-report-to-the-loop", step.Pos(), fmt.Sprintf("Report count on error exits = %v over %d exit(s) (want [0,0]: shoot reports the failed step)", errIv, nErr))
-			rep := P.Func(sc.rel, sc.recv, "reportErr")
-			if rep == nil {
-				c.Anchor("O10.1", sc.rel+".reportErr")
-			} else {
-				// reportErr(sample, err) reports exactly once when err != nil
-				iv := PathQuery{Fn: rep, Weight: s.Weight, Edge: AssumeNonNil(func(v ssa.Value) bool { return len(rep.Params) == 3 && v == ssa.Value(rep.Params[2]) })}.Count()
-				c.Check(iv.Is(1, 1), "O10.1", fk(rep)+":reports-once-for-a-non-nil-error", rep.Pos(), fmt.Sprintf("Report count with err != nil = %v (want [1,1])", iv))
-				// in the loop: on the err != nil edge of shootStep, reportErr(sample of this step, err) exactly once before return; on the nil edge none
+			{
+				// in the loop: on the err != nil edge of shootStep the step's sample is reported exactly once before the
+				// loop ends (directly or through a helper such as reportErr(sample, err)); on the nil edge not at all
 				okLoop := false
 				var stepCall *ssa.Call
 				EachInstr(loop, func(in ssa.Instruction) {
@@ -226,22 +221,31 @@ func c10OneSample(c *Ctx) {
 					}
 				})
 				if stepCall != nil {
-					isE := func(v ssa.Value) bool { return v == ssa.Value(stepCall) }
+					isE := func(v ssa.Value) bool {
+						return P.DerivesAnyIP(v, func(r ssa.Value) bool { return r == ssa.Value(stepCall) })
+					}
 					w := func(in ssa.Instruction) (int, int) {
-						cc := CC(in)
-						if cc != nil && cc.StaticCallee() == rep {
-							// same sample as handed to shootStep, and the step's error
-							if len(cc.Args) == 3 && sameRoots(cc.Args[1], stepCall.Call.Args[2]) && DerivesAny(cc.Args[2], false, isE) {
-								return 1, 1
-							}
-							return 2, 2 // wrong sample: counts as a mismatch
+						if !isReport(in) {
+							return 0, 0
 						}
-						return 0, 0
+						cc := CC(in)
+						// the sample handed to shootStep
+						if P.DerivesAnyIP(cc.Args[len(cc.Args)-1], func(r ssa.Value) bool {
+							for _, r2 := range Roots(stepCall.Call.Args[2], false) {
+								if r == r2 {
+									return true
+								}
+							}
+							return false
+						}) {
+							return 1, 1
+						}
+						return 2, 2 // another sample: counts as a mismatch
 					}
 					ivErr := PathQuery{Fn: loop, Start: stepCall, Weight: w, Edge: AssumeNonNil(isE), StopBlock: loopHeaderOf(stepCall.Block())}.Count()
 					ivNil := PathQuery{Fn: loop, Start: stepCall, Weight: w, Edge: assumeNil(isE), StopBlock: loopHeaderOf(stepCall.Block())}.Count()
 					okLoop = ivErr.Is(1, 1) && ivNil.Is(0, 0)
-					c.Check(okLoop, "O10.1", fk(loop)+":failed-step-reported-once-by-the-loop", stepCall.Pos(), fmt.Sprintf("reportErr(sample, err) after a failed step = %v (want [1,1]), after a successful step = %v (want [0,0])", ivErr, ivNil))
+					c.Check(okLoop, "O10.1", fk(loop)+":failed-step-reported-once-by-the-loop", stepCall.Pos(), fmt.Sprintf("reports of the step's sample after a failed step = %v (want [1,1]), after a successful step = %v (want [0,0])", ivErr, ivNil))
 				} else {
 					c.Anchor("O10.1", "call of shootStep in "+fk(loop))
 				}
